@@ -18,6 +18,8 @@ pub struct W1Case {
     pub matrices: Vec<Value>,
     pub config: Value,
     pub spec: RunSpec,
+    /// What the derivation of user relations did for this case (not part of the replay document: the relations are).
+    pub rel: crate::scen::relgen::RelStats,
 }
 
 impl W1Case {
@@ -30,6 +32,7 @@ impl W1Case {
             matrices: v.get("matrices")?.as_array()?.clone(),
             config: v.get("config")?.clone(),
             spec: RunSpec::from_json(v.get("spec")?)?,
+            rel: Default::default(),
         })
     }
 }
@@ -69,7 +72,10 @@ pub fn make_case(seed: u64, tuning: &W1Tuning) -> (W1Case, gen::problem::Feature
             spec.stalls.push((at, jump));
         }
     }
-    (W1Case { problem: g.problem, matrices: g.matrices, config: c.config, spec }, g.features)
+    let mut problem = g.problem;
+    // user relations: derived from a first solve of the same problem so that they are consistent with the constraints
+    let rel = if g.features.relations { crate::scen::relgen::augment(seed, &mut problem, &g.matrices) } else { Default::default() };
+    (W1Case { problem, matrices: g.matrices, config: c.config, spec, rel }, g.features)
 }
 
 /// Executes the case inside the simulator.
@@ -188,7 +194,6 @@ pub struct W1Scenario {
 fn allowed_features() -> gen::problem::Features {
     let mut allowed = gen::problem::Features::all();
     allowed.req_breaks = false; // reserved-time model is not part of the reference oracle
-    allowed.relations = false; // generated separately from feasible tours (see relations scenario)
     allowed
 }
 
@@ -250,6 +255,8 @@ impl W1Scenario {
                 rec.count(&format!("features.{n}"), 1);
             }
         }
+        case.rel.count_into(&mut rec);
+        rec.count("relations.in_problem", case.problem["plan"].get("relations").and_then(|r| r.as_array()).map_or(0, |r| r.len()) as u64);
         rec.count(&format!("scheduler.strategy.{}", case.spec.strategy.name()), 1);
         rec.count(&format!("scheduler.workers.{}", case.spec.workers), 1);
         rec.count(&format!("clock.policy.{}", case.spec.clock_policy.name()), 1);
